@@ -1484,10 +1484,19 @@ class Interp:
         tr = None
         if len(stmt.items) == 1 and stmt.items[0].optional_vars is None:
             e = stmt.items[0].context_expr
-            if isinstance(e, ast.Call) and not e.keywords and e.args and not any(isinstance(a, ast.Starred) for a in e.args):
+            args = []
+            for a in (e.args if isinstance(e, ast.Call) else []):
+                if isinstance(a, ast.Starred) and isinstance(a.value, ast.Name):
+                    # suppress(*TABLE) with TABLE a module-level tuple of classes bound once: its elements
+                    stmts = self.m.assigns.get(self.module, {}).get(a.value.id) or []
+                    v = stmts[0].value if len(stmts) == 1 and isinstance(stmts[0], (ast.Assign, ast.AnnAssign)) else None
+                    args += list(v.elts) if isinstance(v, (ast.Tuple, ast.List)) and not any(isinstance(x, ast.Starred) for x in v.elts) else [a]
+                else:
+                    args.append(a)
+            if isinstance(e, ast.Call) and not e.keywords and args and not any(isinstance(a, ast.Starred) for a in args):
                 q = self.m.resolve_name(self.module, e.func) if isinstance(e.func, (ast.Name, ast.Attribute)) else None
                 if q == "contextlib.suppress":
-                    typ = e.args[0] if len(e.args) == 1 else ast.Tuple(list(e.args), ast.Load())
+                    typ = args[0] if len(args) == 1 else ast.Tuple(list(args), ast.Load())
                     tr = ast.Try(stmt.body, [ast.ExceptHandler(typ, None, [ast.Pass()])], [], [])
                     ast.copy_location(tr, stmt)
                     ast.fix_missing_locations(tr)
